@@ -3,6 +3,9 @@
 package engines
 
 import (
+	"github.com/hashicorp/nodeenrollment/storage/file"
+	"path/filepath"
+	"os"
 	"context"
 	"errors"
 	"fmt"
@@ -266,6 +269,42 @@ func kvStep(s kvState, in kvIn, out kvOut, storeOnce bool) (bool, kvState) {
 	return false, s
 }
 
+// kvRelocateBehindSymlink picks one record file of the file back end, moves it to a side directory and puts a symbolic
+// link with the old name in its place. Returns "type-dir/id" of the record moved, "" if there is none.
+func kvRelocateBehindSymlink(r *kernel.Run, st nodeenrollment.Storage, tp *kernel.Tape) string {
+	fs, ok := st.(*file.Storage)
+	if !ok {
+		return ""
+	}
+	base := fs.BaseDir()
+	var files []string
+	filepath.WalkDir(base, func(p string, d os.DirEntry, err error) error {
+		if err == nil && d.Type().IsRegular() && !strings.Contains(p, "/.moved/") {
+			files = append(files, p)
+		}
+		return nil
+	})
+	if len(files) == 0 {
+		return ""
+	}
+	sort.Strings(files)
+	f := files[tp.Draw(len(files))]
+	side := filepath.Join(filepath.Dir(base), filepath.Base(base)+".moved")
+	if err := os.MkdirAll(side, 0o700); err != nil {
+		r.HarnessErr("mkdir: %v", err)
+	}
+	r.OnEnd(func() { os.RemoveAll(side) })
+	dst := filepath.Join(side, fmt.Sprintf("%d-%s", r.NextID(), filepath.Base(f)))
+	if err := os.Rename(f, dst); err != nil {
+		r.HarnessErr("rename: %v", err)
+	}
+	if err := os.Symlink(dst, f); err != nil {
+		r.HarnessErr("symlink: %v", err)
+	}
+	rel, _ := filepath.Rel(base, f)
+	return rel
+}
+
 type unknownMsg struct{ *timestamppb.Timestamp }
 
 func (unknownMsg) GetId() string { return "a" }
@@ -397,6 +436,15 @@ func propC19(r *kernel.Run) {
 				// the process restarts: a new Storage value over the same directory; the map model is untouched
 				st = reopenBackend(r, st)
 				hist = append(hist, "restart (directory re-opened)")
+				continue
+			}
+			if backend == "file" && tp.Draw(15) == 0 {
+				// the operator moves a record to another volume and leaves a symbolic link in its place (secret mounts and
+				// config management do the same): the record is where it was as far as the key-value map is concerned
+				if moved := kvRelocateBehindSymlink(r, st, tp); moved != "" {
+					hist = append(hist, "record "+moved+" moved behind a symbolic link")
+					r.Count("fault.record_moved_behind_symlink", 1)
+				}
 				continue
 			}
 			in := draw()
